@@ -74,12 +74,23 @@ CallSolveAndSimulate(f, p, i, s, via) ==
                            term |-> <<"F", funcs[f].model, p, VTerm(funcs[f].model, p), i, s>>])
   /\ UNCHANGED <<funcs, hidden, held>>
 
+\* the combined target also accepts value arrays (those of the earlier solve call k): the arrays passed are the arrays in
+\* use -- the call denotes what the simulate target denotes, not a simulation from a fresh solution
+CallCombinedWithArrays(f, p, i, s, k, via) ==
+  /\ funcs[f].target = "solve_and_simulate" /\ ViaOK(f, p, via)
+  /\ k \in DOMAIN hist /\ hist[k].op = "solve" /\ hist[k].model = funcs[f].model
+  /\ hist' = Append(hist, [op |-> "solve_and_simulate", f |-> f, model |-> funcs[f].model, target |-> "solve_and_simulate",
+                           jit |-> funcs[f].jit, p |-> p, init |-> i, seed |-> s, vfrom |-> k, via |-> via,
+                           term |-> <<"F", funcs[f].model, p, hist[k].term, i, s>>])
+  /\ UNCHANGED <<funcs, hidden, held>>
+
 ANext ==
   \/ \E m \in Models, tg \in Targets, j \in BOOLEAN : Create(m, tg, j)
   \/ \E f \in DOMAIN funcs, p \in ParamSets : FillTemplate(f, p)
   \/ \E f \in DOMAIN funcs, p \in ParamSets, v \in Vias : CallSolve(f, p, v)
   \/ \E f \in DOMAIN funcs, p \in ParamSets, i \in Inits, s \in Seeds, k \in DOMAIN hist, v \in Vias : CallSimulate(f, p, i, s, k, v)
   \/ \E f \in DOMAIN funcs, p \in ParamSets, i \in Inits, s \in Seeds, v \in Vias : CallSolveAndSimulate(f, p, i, s, v)
+  \/ \E f \in DOMAIN funcs, p \in ParamSets, i \in Inits, s \in Seeds, k \in DOMAIN hist, v \in Vias : CallCombinedWithArrays(f, p, i, s, k, v)
 ASpec == AInit /\ [][ANext]_avars
 
 \* purity at the level of the specification
@@ -88,12 +99,13 @@ TermDependsOnArgumentsOnly ==
   \A a, b \in DOMAIN hist :
     (hist[a].op = hist[b].op /\ hist[a].op \notin {"create", "fill"} /\ hist[a].model = hist[b].model /\ hist[a].p = hist[b].p
      /\ hist[a].init = hist[b].init /\ hist[a].seed = hist[b].seed
-     /\ (hist[a].op = "simulate" => hist[hist[a].vfrom].term = hist[hist[b].vfrom].term))
+     /\ (hist[a].vfrom = 0 <=> hist[b].vfrom = 0)
+     /\ (hist[a].vfrom # 0 => hist[hist[a].vfrom].term = hist[hist[b].vfrom].term))
     => hist[a].term = hist[b].term
 \* C06 at the level of the specification: the combined target denotes solve followed by simulate
 CombinedIsSolveThenSimulate ==
   \A a, b \in DOMAIN hist :
-    (hist[a].op = "solve_and_simulate" /\ hist[b].op = "simulate" /\ hist[a].model = hist[b].model /\ hist[a].p = hist[b].p
+    (hist[a].op = "solve_and_simulate" /\ hist[a].vfrom = 0 /\ hist[b].op = "simulate" /\ hist[a].model = hist[b].model /\ hist[a].p = hist[b].p
      /\ hist[a].init = hist[b].init /\ hist[a].seed = hist[b].seed /\ hist[hist[b].vfrom].p = hist[b].p)
     => hist[a].term = hist[b].term
 \* an object the user holds is changed by the user only: no call on any function object writes to it
